@@ -30,6 +30,11 @@ def digits(n, bg, seed, salt):
 def make(case):
     pin = digits(case['pinlen'], case['bg'], case['seed'], 3)
     pan = digits(case['panlen'], case['bg'] if case['bg'] != '0' else '4', case['seed'], 5)
+    # a card number / PIN that STARTS WITH a digit string written in the library's own source
+    if case.get('pan_prefix'):
+        pan = (case['pan_prefix'] + pan)[:len(pan)]
+    if case.get('pin_prefix'):
+        pin = (case['pin_prefix'] + pin)[:len(pin)]
     for where, pos, d in case.get('dev', []):
         if where == 'pin':
             pin = pin[:pos] + str(d) + pin[pos + 1:]
@@ -58,7 +63,7 @@ def check_case(case, acc):
     key = case.get('key')
     fill = case.get('fill')
     acc.case((fmt, case['pinlen'], case['panlen'], case['bg'], repr(case.get('dev')), key, fill, case.get('cls'),
-              case.get('after_failed_call')),
+              case.get('after_failed_call'), case.get('pan_prefix'), case.get('pin_prefix')),
              nontrivial=True, outcome='%s/pin%d' % (fmt, len(pin)))
     stub = RandStub()
     real = secrets.randbits
@@ -280,6 +285,17 @@ def enumerate_cases(tier, seed):
             for d1 in (1, 5, 9):
                 for d2 in (3, 7, 9):
                     cases.append(dict(base, fmt='iso0', dev=[[w1, p1, d1], [w2, p2, d2]]))
+    from vf import literals
+    for d in literals.harvest()['digits']:
+        for nl in (13, 16, 19):
+            base = {'pinlen': 4 + len(d) % 9, 'panlen': nl, 'bg': 'seed', 'seed': seed, 'pan_prefix': d[:nl - 1]}
+            cases.append(dict(base, fmt='iso0', key=TDES_KEYS[0]))
+            cases.append(dict(base, fmt='iso0'))
+        for pl in (4, 6, 12):
+            if len(d) <= pl:
+                base = {'pinlen': pl, 'panlen': 16, 'bg': 'seed', 'seed': seed, 'pin_prefix': d}
+                cases.append(dict(base, fmt='iso0', key=TDES_KEYS[0]))
+                cases.append(dict(base, fmt='iso4', key=AES_KEYS[2], fill=5))
     for pat in CT_PATTERNS:
         for key in TDES_KEYS:
             cases.append({'raw': True, 'alg': 'tdes', 'key': key, 'ct': pat})
